@@ -1,7 +1,7 @@
-(* C16 — Clusters with different ids stay isolated (one-step part; the two-cluster invariant
-   over schedules is in Isolation.v / C16_two_clusters_isolated). *)
+(* C16 — Clusters with different ids stay isolated: the one-step statements, and the invariant
+   over all schedules of a routed network (Isolation.v). *)
 From ChitchatModel Require Import Base SMap Ids Bytes Params NodeState Stream DeltaWire Message
-  Cluster FD Chitchat SMap_lemmas Cluster_lemmas Chitchat_lemmas.
+  Cluster FD Chitchat World SMap_lemmas Cluster_lemmas Chitchat_lemmas Reach Isolation.
 
 (* A SYN with a different cluster id (any different byte string: empty, prefix, case variant) is
    answered only with BadCluster, produces no event, and the node is what it was except for its
@@ -34,3 +34,53 @@ Theorem C16_badcluster_is_terminal : forall zc now n ord,
   process_message zc now n BadCluster ord = Ok (update_self_heartbeat n, None, []).
 Proof. exact badcluster_is_terminal. Qed.
 Print Assumptions C16_badcluster_is_terminal.
+
+(* Over every schedule of the routed network [rstep] — any number of nodes and clusters, any
+   cluster-id strings, joins at any time, local writes, GC, heartbeats, clock, liveness
+   evaluation, a SYN addressed by any node to ANY node (cross-configured seeds, shared addresses),
+   delivery of any packet ever sent to its addressee any number of times in any order or never
+   (loss, duplication, reordering, delay), every reply going back to the sender of the packet it
+   answers: a node never holds a copy — key-values, versions, heartbeat — of a member whose
+   cluster id differs from its own.  (Honest routing is essential: SYN-ACK and ACK carry no cluster
+   id, so a SYN-ACK mis-delivered to a node of another cluster would be accepted; that is outside
+   the property's "honest clusters".)  The failure detector's live/dead sets are fed only from
+   copies a node holds (report_heartbeat), so they are covered through the copies; that inclusion
+   itself is exercised by the proc suite's two-cluster mode, not proved. *)
+Theorem C16_two_clusters_isolated : forall zc r, rreachable zc r ->
+  forall a b na nb, rnode r a = Some na -> rnode r b = Some nb ->
+    cluster_of na <> cluster_of nb -> nm_get (self_id nb) (cs_nodes (nd_cs na)) = None.
+Proof. exact two_clusters_isolated. Qed.
+Print Assumptions C16_two_clusters_isolated.
+
+(* every member a node knows is the id of a node of its own cluster, and nothing in flight can
+   change that *)
+Theorem C16_isolation_invariant : forall zc r, rreachable zc r -> Iso r.
+Proof. exact rreachable_iso. Qed.
+Print Assumptions C16_isolation_invariant.
+
+(* non-vacuity: two nodes of clusters "c" and "C"; the first gossips to the second (cross-seed);
+   the reachable state contains the rejection and both hold only themselves *)
+Definition ex_zc : bytes -> option bytes := fun _ => None.
+Definition ex_fdc := mkFdCfg 8 1 1000 10000 5000 100000 50000.
+Definition ex_cfg (nm : byte) (cl : byte) := mkCfg (mkId [nm] 0 (V4 1 1)) [cl] ex_fdc 10 PNone false.
+Example C16_nonvacuous :
+  exists r na nb, rreachable ex_zc r /\ rnode r 0 = Some na /\ rnode r 1 = Some nb /\
+    cluster_of na <> cluster_of nb /\ In (mkP 1 0 BadCluster) (r_net r).
+Proof.
+  pose (r1 := mkR (with_nodes (r_w (r_init)) (w_nodes (r_w r_init) ++ [new_node (ex_cfg x41 x63) []])) (r_net r_init)).
+  assert (H1 : rreachable ex_zc r1).
+  { eapply RR_step; [apply RR_init|]. apply RS_join. intros a n H. destruct a; discriminate. }
+  pose (r2 := mkR (with_nodes (r_w r1) (w_nodes (r_w r1) ++ [new_node (ex_cfg x42 x43) []])) (r_net r1)).
+  assert (H2 : rreachable ex_zc r2).
+  { eapply RR_step; [exact H1|]. apply RS_join. intros a n H. destruct a as [|[|a]]; try discriminate.
+    injection H as <-. vm_compute. discriminate. }
+  pose (na := new_node (ex_cfg x41 x63) []). pose (nb := new_node (ex_cfg x42 x43) []).
+  pose (r3 := mkR (r_w r2) (mkP 0 1 (create_syn_message (w_now (r_w r2)) na) :: r_net r2)).
+  assert (H3 : rreachable ex_zc r3).
+  { eapply RR_step; [exact H2|]. apply (RS_syn ex_zc r2 0 1 na). reflexivity. }
+  eexists _, _, _. split.
+  - eapply RR_step; [exact H3|].
+    eapply (RS_deliver ex_zc r3 (mkP 0 1 (create_syn_message (w_now (r_w r2)) na)) nb []); [left; reflexivity|reflexivity|].
+    vm_compute. reflexivity.
+  - split; [reflexivity|]. split; [reflexivity|]. split; [vm_compute; discriminate|]. left. reflexivity.
+Qed.
